@@ -228,6 +228,25 @@ def run_commas(res, case):
                     res.violate('law', 'law:thousands_commas-only-commas:'
                                 + kind, {'value': repr(v), 'source': src,
                                          'got': out})
+    # values that compare equal but print differently, one after the other
+    import decimal
+    eq = [1000, 1000.0, decimal.Decimal('1000.00'), 1, True, 1.0, 0, 0.0,
+          False, 1500, 1500.0, -1500, -1500.0]
+    for order in (eq, eq[::-1]):
+        for src in ('<dtml-var x fmt=comma-numeric>',
+                    '<dtml-var x thousands_commas>'):
+            for v in order:
+                got = rend(src, x=v)
+                n += 1
+                nt += 1
+                text = str(v)
+                want = commas(text) if NUMERIC.match(text) else text
+                if got != ('ok', want):
+                    res.violate('law', 'law:thousands_commas:equal-values',
+                                {'value': repr(v), 'source': src,
+                                 'got': repr(got), 'expected': want,
+                                 'rendered-before': [repr(x) for x in
+                                                     order[:order.index(v)]]})
     res.evals = n
     res.nt_count = nt
     res.sample = {'values': COMMA_TEXTS[:4], 'option': 'thousands_commas'}
